@@ -197,5 +197,55 @@ class FastHits(Contract):
                 4: defined_loop({'hits': hi}), 5: LoopSpec(score_inv)}
 
 
+class LogAddExp2(Contract):
+    """fimo.logaddexp2 as seen from _pwm_to_mapping - ASSUMED: returns some extended real (its value
+    semantics log2(2^x + 2^y) over extended reals is checked by the bounded layer C11)."""
+    qualname = 'tangermeme.tools.fimo.logaddexp2'
+    props = ('C11',)
+    assumed = True
+
+    def fresh_result(self, a, cfg, fr):
+        return O.fresh_real('lae')
+
+
+def all_init(E, t):
+    return E.forall(list(t.shape), lambda *j: t.init_at(*j))
+
+
+class PwmToMappingInit(Contract):
+    """C11 (initialisation): the table returned by _pwm_to_mapping never exposes uninitialised
+    memory - every entry of the returned array was written, for every motif length including 1.
+    (Index safety of the convolution and the value of the table are NOT covered by this contract:
+    bounded layer C11.)"""
+    qualname = 'tangermeme.tools.fimo._pwm_to_mapping'
+    props = ('C11',)
+    check_index = False
+
+    def make_args(self, cfg, A):
+        pwm = A.tensor('log_pwm', 2, 'real', lib='np', min_dims=1)
+        bs = A.real('bin_size')
+        A.assume(bs > 0)
+        return [pwm, bs], {}
+
+    def accepts(self, a, cfg):
+        return False
+
+    def post(self, a, r, cfg):
+        out = [('returns-pair', isinstance(r, tuple) and len(r) == 2 and isinstance(r[1], Tn))]
+        if not out[0][1]:
+            return out
+        t = r[1]
+        out.append(('table-fully-initialised', O.forall(t.shape, lambda j: t.init_at(j))))
+        return out
+
+    def loops(self):
+        none = lambda E, fr: []
+        lp = lambda E, fr: [('logpdf-initialised', all_init(E, E.logpdf)), ('old_logpdf-initialised', all_init(E, E.old_logpdf))]
+        return {1: LoopSpec(none), 2: LoopSpec(none), 3: LoopSpec(lambda E, fr: [('old_logpdf-initialised', all_init(E, E.old_logpdf))]),
+                4: LoopSpec(lp), 5: LoopSpec(lp), 6: LoopSpec(lp), 7: LoopSpec(lp), 8: LoopSpec(lp), 9: LoopSpec(lp)}
+
+
 def register(world):
     world.register(FastHits())
+    world.register(LogAddExp2())
+    world.register(PwmToMappingInit())
